@@ -6,7 +6,7 @@ import random
 
 from harness import runner, tlc, trace
 from harness.result import CheckResult, attach
-from harness.world import World, random_world
+from harness.world import PREFIX_POOL, World, random_world
 
 ASSUMPTIONS = [
     "observed at the call into the drawing backend: the names draw_networkx / spring_layout inside "
@@ -75,9 +75,11 @@ def specs_for(ctx):
         specs.append({"driver": "labels", "world": w, "render": "clean", "items": items})
     n_worlds = 150 if ctx.quick else 3000
     for i in range(n_worlds):
-        w = random_world(rng, n_modules=rng.randint(6, 30), n_imports=rng.randint(0, 30))
+        prefixy = rng.random() < 0.35        # names as they are, from a pool whose members are prefixes of one another
+        w = random_world(rng, n_modules=rng.randint(6, 30), n_imports=rng.randint(0, 30),
+                         pool=PREFIX_POOL if prefixy else None)
         items = []
-        rnd = rng.choice(["ident", "clean", "adv", "adv2", "adv3"])
+        rnd = "ident" if prefixy else rng.choice(["ident", "clean", "adv", "adv2", "adv3"])
         for k in range(4):
             n = rng.randint(0, 6)
             mods = rng.sample(w.modules, min(n, len(w.modules)))
@@ -87,6 +89,11 @@ def specs_for(ctx):
             if rng.random() < 0.15:              # an aliased module that does not exist
                 p = rng.choice(w.modules)
                 mods = mods + [tuple(p) + ("ghost",)]
+            if prefixy and rng.random() < 0.4:   # ... whose name is a string prefix of an existing module's name
+                cands = [tuple(m[:-1]) + (m[-1][:-1],) for m in w.modules if len(m) > 1 and len(m[-1]) > 1]
+                cands = [g for g in cands if g not in set(map(tuple, w.modules))]
+                if cands:
+                    mods = mods + [rng.choice(cands)]
             items += viz_items(rng, mods, k0=k, with_rename=(k == 0), render=rnd)
         items.append({"op": "viz", "rid": "P", "aliases": None, "kw": _kw(rng), "spacing": rng.choice([None, 1])})
         spec = {"driver": "labels", "world": w.json(), "render": rnd, "items": items}
